@@ -209,6 +209,10 @@ type ReplayFile struct {
 	Worker    int       `json:"worker"`
 	NWorkers  int       `json:"nworkers"`
 	Minimised bool      `json:"minimised"`
+	// Crash: the run killed the worker process (panic in a repository goroutine); Generate: the
+	// tape is regenerated from (seed, run) instead of being replayed.
+	Crash    bool `json:"crash,omitempty"`
+	Generate bool `json:"generate,omitempty"`
 	OrigTape  int       `json:"original_tape_len"`
 }
 
